@@ -67,44 +67,7 @@ def value_specs(max_leaves=10, **kw):
     return st.recursive(leaf_specs, lambda c: container_specs(c, **kw), max_leaves=max_leaves)
 
 
-# ---------------------------------------------------------------- build
-def build(spec):
-    k = spec[0]
-    if k == "int":
-        return int(spec[1])
-    if k == "float":
-        return float(spec[1])
-    if k == "str":
-        return spec[1]
-    if k == "bytes":
-        return bytes.fromhex(spec[1])
-    if k == "none":
-        return None
-    if k == "bool":
-        return bool(spec[1])
-    if k == "list":
-        return [build(s) for s in spec[1]]
-    if k == "tuple":
-        return tuple(build(s) for s in spec[1])
-    if k == "dict":
-        return {build(a): build(b) for a, b in spec[1]}
-    if k == "set":
-        return {build(s) for s in spec[1]}
-    if k == "frozenset":
-        return frozenset(build(s) for s in spec[1])
-    if k == "nt":
-        return T.NT[spec[1]](*[build(s) for s in spec[2]])
-    if k == "dc":
-        cls = T.DC[spec[1]]
-        init = {f.name: build(spec[2][f.name]) for f in dataclasses.fields(cls) if f.init and f.name in spec[2]}
-        obj = cls(**init)
-        for f in dataclasses.fields(cls):
-            if not f.init and f.name in spec[2]:
-                object.__setattr__(obj, f.name, build(spec[2][f.name]))
-        return obj
-    if k == "sub":
-        return T.SUB[spec[1]](build(s) for s in spec[2])
-    raise ValueError(spec)
+from vf_types import build  # noqa: E402,F401  (kept hypothesis-free for process workers)
 
 
 def spec_depth(spec) -> int:
